@@ -176,7 +176,20 @@ def main():
         if a.replay:
             with open(a.replay) as fh:
                 ctx["replay"] = json.load(fh)
-        mod.run(chk, ctx)
+        try:
+            mod.run(chk, ctx)
+        except facts.InfraError:
+            raise
+        except Exception as e:
+            # a rule met a construct it has no case for (an argument list of another length, a term of another shape):
+            # the structure the property rests on is not the one that was confirmed -> fail closed, naming the rule
+            tb = traceback.extract_tb(e.__traceback__)
+            inner = [fr for fr in tb if "/rules/" in fr.filename] or list(tb)
+            where = inner[-1]
+            rule_fn = next((fr.name for fr in reversed(inner) if fr.name.endswith("_rule") or fr.name.endswith("_rules") or fr.name.startswith("lemma_")), where.name)
+            chk.fail("FAILCLOSED", "unrecognised-structure:%s:%s" % (rule_fn, type(e).__name__),
+                     "rule `%s` (%s:%d, `%s`) cannot read the code it is anchored in any more (%s: %s); the shape it was confirmed on has changed, so the obligation is not discharged"
+                     % (rule_fn, os.path.basename(where.filename), where.lineno, (where.line or "").strip()[:120], type(e).__name__, str(e)[:160]))
         if f.aliases:
             chk.analysed["parameter_aliases"] = ["%s: `%s` read as `%s` (renamed parameter, same position and type)" % x for x in f.aliases]
         if f.field_aliases:
